@@ -1,7 +1,8 @@
 // C15 — Re-implemented standard routines agree with the Go standard library.
 //
 // Differential monitor: every generated input is given to the golib routine
-// (string form, []byte form, now and then named string/byte-slice types) and
+// (string form, []byte form - half of them with spare capacity -, every 8th
+// time named string/byte-slice types, for every generic routine) and
 // to the standard-library routine it re-implements; values, error presence
 // and (hex / base64) error texts and decoded prefixes are compared, the inputs
 // are compared with a private snapshot afterwards, and IPv4ToLong(LongToIPv4(x))
@@ -51,7 +52,7 @@ func main() {
 	r.Assume("strconv.ParseUint, encoding/hex, encoding/base64, crypto/{md5,sha1,sha256,sha512,hmac} of the local Go toolchain are the specification; error texts are compared for hex and base64 only (the statement asks ParseUint for value and error presence); strz.ParseUint bitSize 0 means the platform word size, as strconv's IntSize")
 	r.Assume("HexDecodeInPlace: only the returned count, the error and the first n bytes of the buffer are compared; what it leaves behind them is not asserted")
 	r.Assume("stream helpers: what a call returns for a reader that fails or panics part-way is outside the statement and not judged; the healthy stream made right after it is (chunked, EOF-with-data, zero-length reads, partly consumed bytes/strings readers and buffers, Limit/Multi/Section readers: the expected digest is that of the bytes the reader still delivers)")
-	r.Assume("a slice or string returned by a routine belongs to the caller: a later golib call must not change it (it would no longer be what the standard library returned), and the caller writing to it must not influence later results")
+	r.Assume("a slice or string returned by a routine belongs to the caller: a later golib call must not change it (it would no longer be what the standard library returned), and the caller writing to it must not influence later results; the same holds for the caller's own buffer, the spare capacity behind a []byte argument included: the caller reusing it must not change a result it was given before (what a routine does to that spare capacity is itself not judged: it is not the routine's input)")
 	if r.Thorough() {
 		r.Exhaustive() // ipv4/all enumerates all 2^32 addresses in this tier
 	}
@@ -93,6 +94,12 @@ func main() {
 	r.Require("pu_underscore_accepted", 10000)
 	r.Require("pu_underscore_base0_rejected", 10000)
 	r.Require("pu_underscore_fixed_base", 5000)
+	r.Require("pu_named_type_calls", 100000)
+	r.Require("pu_sign_prefixed", 20000)
+	r.Require("pu_sign_then_digit", 5000)
+	r.Require("pu_empty_inputs", 2000)
+	r.Require("pu_boundary_cutoff_values", 20000)
+	r.Require("pu_boundary_max_pm1_values", 6000)
 	r.Require("pu_boundary_combos", boundaryCombos)
 	r.Require("pu_boundary_valid_base_bits_combos", 35*65)
 	r.Require("pu_short_heads_enumerated", int64(len(shortAlpha)*len(shortAlpha)))
@@ -104,10 +111,22 @@ func main() {
 	r.Require("hex_decode_err_with_nonempty_prefix", 20000)
 	r.Require("hex_positions_x_all_bytes", 100000)
 	r.Require("hex_all_two_byte_strings", 1)
+	r.Require("hex_all_byte_values_encoded", 1)
+	r.Require("hex_invalid_pairs_lengths", 16)
+	r.Require("hex_decode_odd_len_and_invalid_byte", 10000)
+	r.Require("hex_inplace_calls", 100000)
+	r.Require("hex_named_type_encode_calls", 10000)
+	r.Require("hex_named_type_decode_calls", 20000)
+	r.Require("hex_encode_empty_inputs", 1000)
+	r.Require("hex_decode_empty_inputs", 1000)
 	r.Require("b64_encode_inputs", 50000)
 	r.Require("b64_decode_ok", 20000)
 	r.Require("b64_decode_err", 20000)
 	r.Require("b64_decode_err_with_nonempty_prefix", 5000)
+	r.Require("b64_named_type_encode_calls", 10000)
+	r.Require("b64_named_type_decode_calls", 10000)
+	r.Require("b64_encode_empty_inputs", 1000)
+	r.Require("b64_decode_empty_inputs", 1000)
 	for _, e := range b64Encs[:4] {
 		r.Require("b64_enc/"+e.name, 5000)
 	}
@@ -116,6 +135,17 @@ func main() {
 	r.Require("digest_big_stream_calls", 200)
 	r.Require("hmac_calls", 20000)
 	r.Require("hmac_key_longer_than_block", 500)
+	r.Require("hmac_named_type_calls", 4000)
+	r.Require("hmac_empty_key", 50)
+	r.Require("digest_named_type_calls", 20000)
+	r.Require("digest_empty_inputs", 40)
+	for _, d := range digests {
+		r.Require("digest_oneshot/"+d.name, 5000)
+		r.Require("hmac_hash/"+d.name, 300)
+		if d.stream != nil {
+			r.Require("digest_stream/"+d.name, 4000)
+		}
+	}
 	r.Require("ipv4_grid_addresses", 20736)
 	r.Require("ipv4_stratified_samples", 1<<22)
 	r.Require("checkptr_cases", 40)
@@ -126,6 +156,7 @@ func main() {
 	r.Require("history_kept_results_rechecked_after_later_calls", 500000)
 	r.Require("history_arg_in_reused_caller_buffer", 20000)
 	r.Require("history_arg_buffer_scribbled_after_call", 10000)
+	r.Require("history_arg_with_spare_capacity", 5000)
 	r.Require("history_hmac_key_in_reused_caller_buffer", 2000)
 	r.Require("history_result_scribbled_then_same_call", 5000)
 	r.Require("history_step/same-call-after-scribbled-result", 5000)
